@@ -307,7 +307,8 @@ pub fn set_name<S: Src, K: Skel, N: NewName, const SEC: u8, const IDX: usize>(s:
 
 /// set_raw_name with a name that must be refused (C10): nothing changes.
 /// BAD 0: a label of 64; 1: total length 256; 2: truncated (no root label);
-/// 3: contains a compression pointer; 4: empty slice
+/// 3: contains a compression pointer; 4: empty slice; 5..9: a '.', '\\', 0x1f,
+/// 0x7f, 0x00 inside a label (the parser refuses such owner names)
 pub fn set_name_bad<S: Src, K: Skel, const SEC: u8, const IDX: usize, const BAD: u8>(s: &mut S) -> Verdict {
     let p = K::build_cl(s);
     let mut name: Vec<u8> = Vec::new();
@@ -348,6 +349,21 @@ pub fn set_name_bad<S: Src, K: Skel, const SEC: u8, const IDX: usize, const BAD:
             name.push(0xc0);
             name.push(12);
         }
+        // well-formed structure, but a byte the parser refuses in owner names
+        5 | 6 | 7 | 8 | 9 => {
+            name.push(2);
+            name.push(b'a');
+            name.push(match BAD {
+                5 => b'.',
+                6 => b'\\',
+                7 => 0x1f,
+                8 => 0x7f,
+                _ => 0x00,
+            });
+            name.push(1);
+            name.push(b'b');
+            name.push(0);
+        }
         _ => {}
     }
     let mut pp = parse_ok::<S>(&p)?;
@@ -357,6 +373,13 @@ pub fn set_name_bad<S: Src, K: Skel, const SEC: u8, const IDX: usize, const BAD:
         res_ok = it.set_raw_name(&name).is_ok();
     });
     vassert!(found, "the cursor reaches the targeted record");
+    if BAD >= 5 && res_ok {
+        // the structure is fine; the property does not say such a name must be refused, only
+        // that a *successful* call leaves bytes the parser accepts and a consistent view (C08)
+        check_view(&mut pp)?;
+        vcover!(s, true, "accepted");
+        return Ok(());
+    }
     vassert!(!res_ok, "set_raw_name refuses an ill-formed name");
     let after = pp.packet().to_vec();
     // C10: same decoded message (the packet may have been decompressed) and the view holds
@@ -863,6 +886,36 @@ pub fn delete_walk<S: Src, K: Skel, const SEC: u8, const MASK: u32>(s: &mut S) -
         };
         vassert!(off.is_none(), "delete walk: an emptied section reads as absent");
     }
+    vcover!(s, true, "end");
+    Ok(())
+}
+
+// ------------------------------------------------------------------ rename through the object: view only
+
+/// ParsedPacket::rename_with_raw_names (suffix "zz" -> "new" style rename on
+/// the skeleton's own question suffix is not needed here: any rename, matching
+/// or not, must leave an object whose view equals a fresh parse).
+pub fn rename_view<S: Src, K: Skel>(s: &mut S) -> Verdict {
+    let p = K::build_cl(s);
+    let mut pp = parse_ok::<S>(&p)?;
+    // source: the last label of the question name + root, taken from the skeleton bytes
+    let q = &K::RECS[0];
+    let mut w = [0u8; 256];
+    let wl = spec::name_wire(&p, q.start, &mut w);
+    // find the start of the last label
+    let mut cur = 0;
+    let mut last = 0;
+    let mut g = 0;
+    while g < 130 && cur < wl && w[cur] != 0 {
+        g += 1;
+        last = cur;
+        cur += w[cur] as usize + 1;
+    }
+    let source = &w[last..wl];
+    let target: &[u8] = &[3, b'n', b'e', b'w', 2, b't', b'g', 0];
+    let r = pp.rename_with_raw_names(target, source, true);
+    vassert!(r.is_ok(), "rename_with_raw_names succeeds");
+    check_view(&mut pp)?;
     vcover!(s, true, "end");
     Ok(())
 }
